@@ -680,6 +680,12 @@ def face_cases(ctx, M, rng):
                             what = 'port' if face_obs(r[1])[:2] == exp[:2] else ('type' if face_obs(r[1])[0] != exp[0] else 'host')
                             ctx.violation('default_face', f'wrong-{what}:{low}:{"default" if p is None else "explicit"}-port',
                                           f'{uri!r} gives {face_obs(r[1])!r}, denotes {exp!r}', uri)
+                    elif known and low != 'unix' and p is not None and p.isascii() and p.isdigit() and int(p) == 0:
+                        # an explicit port 0 is still the port the URI denotes (known finding C20-port-zero)
+                        sp1 = M([23, s_of_str(low), [0 if hk == 'n' else 1, s_of_str(h)], [s_of_str('1')], s_of_str(t)])
+                        if sp1[0] and r[0] == 'ok' and face_obs(r[1])[2] != 0:
+                            ctx.violation('default_face', 'explicit-port-zero-replaced',
+                                          f'{uri!r} gives port {face_obs(r[1])[2]!r}, the URI says 0', uri)
                     ctx.case(('face', uri), bool(h), {'uri': uri}, 'face.product.' + ('spec' if ok and known else r[0]))
     # unix paths
     for path in ['/run/nfd/nfd.sock', '/run/nfd.sock', '/tmp/a b', '/x/../y', '//double', '/\u00fc', '/a;b', '/a%20b']:
